@@ -107,7 +107,7 @@ def Node.renameEdgeId (n : Node) (eidCur eidNew : Int) (d : Bool) : Except Err N
   n.addEdgeId eidNew d
 
 /-- `flip` -/
-def Node.flip (n : Node) : Node := { n with eidsIn := n.eidsOut, eidsOut := n.eidsIn }
+def Node.flip (n : Node) : Node := { n with eidsIn := n.eidsOut, eidsOut := n.eidsIn, qnum := -n.qnum }
 
 /-! ## automata -/
 
